@@ -7,6 +7,7 @@ import (
 	"github.com/bmeg/grip/gdbi"
 	"github.com/bmeg/grip/kvi"
 	"github.com/bmeg/grip/kvi/badgerdb"
+	"github.com/bmeg/grip/log"
 )
 
 // NewManager creates a resource manager
@@ -20,9 +21,20 @@ type manager struct {
 	workDir string
 }
 
+// GetTempKV opens a temporary key-value store under the work directory.
+// It returns nil when no store can be opened there; callers fall back to memory.
 func (bm *manager) GetTempKV() kvi.KVInterface {
-	td, _ := ioutil.TempDir(bm.workDir, "kvTmp")
-	kv, _ := badgerdb.NewKVInterface(td, kvi.Options{})
+	td, err := ioutil.TempDir(bm.workDir, "kvTmp")
+	if err != nil {
+		log.WithFields(log.Fields{"error": err, "workDir": bm.workDir}).Error("GetTempKV: creating temporary directory")
+		return nil
+	}
+	kv, err := badgerdb.NewKVInterface(td, kvi.Options{})
+	if err != nil {
+		log.WithFields(log.Fields{"error": err, "path": td}).Error("GetTempKV: opening temporary store")
+		os.RemoveAll(td)
+		return nil
+	}
 
 	bm.kvs = append(bm.kvs, kv)
 	bm.paths = append(bm.paths, td)
